@@ -51,6 +51,8 @@ def uncps(c):
 QUICK_STRINGS = [
     "", "a", "ab", "abc", "abcabc", "bc", "c", "a.", ".", "(", "[", "*", "+", "a+", "?", "\\", "^", "$", "a$", "|", "a|b",
     ".*", "\x00", "a\x00b", "\n", "a\nb", "\\u{48}", "H", "\u00e9", "a\u00e9", "\U0001f600", "5", "-5", "12",
+    # escape look-alikes (a backslash followed by text that Z3's literal syntax would interpret), also inside longer strings
+    "\\u0041", "x\\u00e9y", "\\x41", "a\\b\\u{1f600}",
 ]
 MORE_STRINGS = [
     "b", "ba", "aa", "aaa", "abcab", "\\\\", "\\d", "a\\", "[a-z]", "a{2}", "(a)", "a)", "^a", "\\x41", "A", "\\u0048",
